@@ -32,6 +32,7 @@ def main(paths):
     for name in ("py", "torch"):
         try:
             recorder_plugin._install(backend.get(name))
+            recorder_plugin._install_more(backend.get(name))
         except Exception as e:
             sys.stderr.write("nbrun: %s not instrumented: %s\n" % (name, e))
     signal.signal(signal.SIGALRM, _alarm)
